@@ -97,6 +97,13 @@ def run_shard(desc, ctx):
         ids = np.sort(rng.permutation(2000)[:k])
         run_case({'rand': [int(desc['seed']), sh, int(_)], 'n': n, 'ids': ids.tolist(),
                   'dtype': DTYPES[int(rng.integers(0, 4))], 'shifted': bool(rng.integers(0, 2)), 'rot': _}, ctx)
+    # long vectors whose id span sits on a dtype boundary (255..257, 65535..65537)
+    for j, span in enumerate([65536, 65535, 65537, 256, 255, 257]):
+        if j != sh % 6 and tier == 'quick':
+            continue
+        p0 = [12, 0, 1, 70000][(j + sh) % 4]
+        run_case({'rand': [int(desc['seed']), sh, j, 7777], 'n': int(rng.integers(4096, 9000)), 'ids': [p0, p0 + 1, p0 + span // 2, p0 + span],
+                  'dtype': ['int32', 'int64', 'uint32'][(j + sh) % 3], 'shifted': bool(j % 2), 'rot': j}, ctx)
     for r in range(4 if tier == 'quick' else 60):
         run_case({'model': [int(desc['seed']), sh, r]}, ctx)
     if sh == 0:
@@ -182,6 +189,10 @@ def run_case(case, ctx):
                 k = int(r3.integers(18, 70))
                 req = r3.permutation(6000)[:k].tolist() + ids_present[:int(r3.integers(0, len(ids_present) + 1))]
                 subsets.append(req)
+    # requests that name a cluster more than once, as long as the id range they span (an unrequested cluster lies between)
+    if len(ids_present) >= 3 and ids_present[0] >= 0 and ids_present[-1] - ids_present[0] < 40 and not long_:
+        a_, c_ = ids_present[0], ids_present[-1]
+        subsets = subsets + [[a_] * (c_ - a_) + [c_], [c_, a_] + [c_] * (c_ - a_ - 1)]
     # absent ids outside the range of the vector's dtype must stay absent (no wrap-around)
     p0 = ids_present[0]
     subsets = subsets + [[65536 + p0], [2 ** 32 + p0, ids_present[-1]], [-1], [p0 - 65536, -(2 ** 32) + p0]]
@@ -223,6 +234,20 @@ def run_case(case, ctx):
         rr = call(f)
         if not rr.ok:
             ctx.violation('raised', case, '%s raised %r' % (name, rr.exc), dict(feats, function=name), tb=rr.tb)
+    # _flatten_per_cluster is the sorted union of whatever groups it is given: groups in picking order (as the spike
+    # selector stores them), a single group, groups that overlap or repeat an id
+    rngf = np.random.default_rng(case['rot'])
+    shuffled = {k: rngf.permutation(np.asarray(v)) for k, v in spc.items()}
+    k0 = sorted(shuffled)[0]
+    forms = [shuffled, {k0: shuffled[k0]}, {k0: np.r_[shuffled[k0], shuffled[k0][:1]]},
+             {k: (np.r_[v, shuffled[k0][:2]] if k != k0 else v) for k, v in shuffled.items()}]
+    for fm in forms:
+        rr = call(pa._flatten_per_cluster, fm)
+        exp = np.unique(np.concatenate([np.asarray(v) for v in fm.values()]))
+        if not rr.ok or same(rr.value, exp, dtype=False):
+            ctx.violation('flatten_mismatch' if rr.ok else 'raised', dict(case, groups={int(k): np.asarray(v).tolist()[:12] for k, v in list(fm.items())[:4]}),
+                          '_flatten_per_cluster: %s' % (rr.exc if not rr.ok else same(rr.value, exp, dtype=False)), dict(feats, function='_flatten_per_cluster'), tb=rr.tb)
+            break
     # driver-side second opinion on _unique / _index_of
     rr = call(pa._unique, sc)
     if rr.ok and np.asarray(rr.value).tolist() != ids_present:
